@@ -149,5 +149,38 @@ fn main() {
             Err(p) => rep.mismatch(&format!("crashreason:panic:{}", p), json!({"csd": csd})),
         }
     }
+    // ---- the same rule, for every system-info stream OsStrings.tla reaches (second argument: its TLC output)
+    if let Some(os_path) = std::env::args().nth(2) {
+        for_each_case(&os_path, "OSCASE", |c| {
+            let os = c["platform"].as_str().unwrap();
+            let csd = c["csd"].as_str().unwrap();
+            let ver = if c["numeric"] == "zero" { (0, 0, 0) } else { (5, 4, 3) };
+            let mut spec = DumpSpec { os: os.into(), cpu: "amd64".into(), ..DumpSpec::default() };
+            spec.threads.push(ThreadSpec { id: 1, ctx_ok: false, name: None, ip: 0x400100, sp: 0x10000, stack_base: 0x10000, stack: vec![0u8; 16] });
+            spec.csd = Some(csd.to_string());
+            spec.os_version = Some(ver);
+            let bytes = build(&spec);
+            rep.evaluations += 1;
+            rep.class(&format!("osmodel:{}:{}", if c["uname"].as_bool().unwrap() { "uname" } else { "stored" }, os));
+            rep.class(&format!("osmodel:phase{}", c["phase"]));
+            if c["uname"].as_bool().unwrap() { rep.class(&format!("osmodel:nbuild{}", c["nbuild"])); }
+            rep.nontrivial(&c.to_string());
+            let res = guarded(|| {
+                let dump = Minidump::read(&bytes[..]).map_err(|e| format!("read: {:?}", e))?;
+                let provider = Symbolizer::new(string_symbol_supplier(HashMap::new()));
+                block_on(Box::pin(process_minidump(&dump, &provider))).map_err(|e| format!("process: {:?}", e))
+            });
+            match res {
+                Ok(Ok(state)) => {
+                    let e = &c["expected"];
+                    let got = (state.system_info.os_version.clone(), state.system_info.os_build.clone());
+                    let want = (Some(e["version"].as_str().unwrap().to_string()), if e["has_build"].as_bool().unwrap() { Some(e["build"].as_str().unwrap().to_string()) } else { None });
+                    if got != want { rep.mismatch(&format!("crashreason:os-model:{}", if c["uname"].as_bool().unwrap() { "uname" } else { "stored" }), json!({"case": c, "expected": want, "observed": got})); }
+                }
+                Ok(Err(e)) => rep.mismatch("crashreason:error", json!({"case": c, "error": e})),
+                Err(p) => rep.mismatch(&format!("crashreason:panic:{}", p), json!({"case": c})),
+            }
+        });
+    }
     rep.finish();
 }
